@@ -197,12 +197,12 @@ def Fresh (s : IState) : Prop := s.nnps.seen = s.nnps.objs.map s.ver
 theorem bound_updateParticleArrays (s : IState) (as : List Nat) :
     Bound (updateParticleArrays s as) ∧ Fresh (updateParticleArrays s as) ∧
     (updateParticleArrays s as).arrays = as ∧ (updateParticleArrays s as).pts = s.pts := by
-  simp [updateParticleArrays, createNnps, Bound, Fresh]
+  simp [updateParticleArrays, setArrays, createNnps, Bound, Fresh]
 
 theorem bound_setInterpolationPoints (s : IState) (p : Nat) :
     Bound (setInterpolationPoints s p) ∧ Fresh (setInterpolationPoints s p) ∧
     (setInterpolationPoints s p).arrays = s.arrays ∧ (setInterpolationPoints s p).pts = p := by
-  simp [setInterpolationPoints, updateParticleArrays, createNnps, Bound, Fresh]
+  simp [setInterpolationPoints, updateParticleArrays, setArrays, createNnps, Bound, Fresh]
 
 /-- the Interpolator's own operations (not the SPHEvaluator's) -/
 def Op.isInterp : Op → Bool
@@ -228,7 +228,7 @@ theorem fresh_step (s : IState) (op : Op) (hop : op.isMutate = false) : Fresh (s
   | updateArrays as => exact (bound_updateParticleArrays s as).2.1
   | update => simp [step, updateOp, Fresh]
   | mutate o => simp [Op.isMutate] at hop
-  | evalUpdateArrays objs => simp [step, evalUpdateParticleArrays, createNnps, Fresh]
+  | evalUpdateArrays objs => simp [step, evalUpdateParticleArrays, setArrays, createNnps, Fresh]
 
 /-- the arrays / points of the latest rebinding in a history -/
 def lastArrays (a0 : List Nat) : List Op → List Nat
@@ -278,7 +278,32 @@ theorem run_append_singleton (s : IState) (ops : List Op) (op : Op) :
 theorem init_spec (arrays : List Nat) (p : Nat) :
     Bound (init arrays p) ∧ Fresh (init arrays p) ∧ (init arrays p).arrays = arrays ∧
     (init arrays p).pts = p := by
-  simp [init, setInterpolationPoints, updateParticleArrays, createNnps, Bound, Fresh]
+  simp [init, setInterpolationPoints, updateParticleArrays, setArrays, createNnps, Bound, Fresh]
+
+/-- the evaluator reads the constants of the very arrays whose per-particle
+properties it reads (`set_array` binds both from the same `pa`) -/
+def ConstsBound (s : IState) : Prop := s.evalConsts = s.evalObjs
+
+theorem constsBound_step (s : IState) (op : Op) (h : ConstsBound s) : ConstsBound (step s op) := by
+  cases op with
+  | setPoints p => simp [step, setInterpolationPoints, updateParticleArrays, setArrays, createNnps, ConstsBound]
+  | updateArrays as => simp [step, updateParticleArrays, setArrays, createNnps, ConstsBound]
+  | update => simpa [step, updateOp, ConstsBound] using h
+  | mutate o => simpa [step, ConstsBound] using h
+  | evalUpdateArrays objs => simp [step, evalUpdateParticleArrays, setArrays, createNnps, ConstsBound]
+
+theorem run_constsBound (s : IState) (ops : List Op) (h : ConstsBound s) : ConstsBound (run s ops) := by
+  induction ops generalizing s with
+  | nil => simpa [run] using h
+  | cons op rest ih =>
+    simp only [run, List.foldl_cons]
+    exact ih (step s op) (constsBound_step s op h)
+
+theorem constsBound_init (arrays : List Nat) (p : Nat) : ConstsBound (init arrays p) := by
+  simp [init, setInterpolationPoints, updateParticleArrays, setArrays, createNnps, ConstsBound]
+
+theorem constsBound_initEval (objs : List Nat) : ConstsBound (initEval objs) := by
+  simp [initEval, createNnps, ConstsBound]
 
 /-! ### staging of the requested property into `temp_prop` -/
 
@@ -470,5 +495,94 @@ theorem getElem?_targetPoints (x y z : NdView α) (hy : y.shape = x.shape) (hz :
   simp [targetPoints, ravelC, hy, hz, hk, mkPos]
 
 end Index
+
+/-! ## the target particles' smoothing length -/
+section TargetH
+variable {α : Type} [LinearOrder α]
+
+theorem maxStep_eq_max (a x : α) : maxStep a x = max a x := by
+  unfold maxStep
+  by_cases h : a < x
+  · rw [if_pos h, max_eq_right (le_of_lt h)]
+  · rw [if_neg h, max_eq_left (not_lt.mp h)]
+
+theorem pyMax_eq_max (a b : α) : pyMax a b = max a b := by
+  unfold pyMax
+  by_cases h : a < b
+  · rw [if_pos h, max_eq_right (le_of_lt h)]
+  · rw [if_neg h, max_eq_left (not_lt.mp h)]
+
+theorem foldl_maxStep_ge (xs : List α) (a : α) :
+    a ≤ xs.foldl maxStep a ∧ ∀ v ∈ xs, v ≤ xs.foldl maxStep a := by
+  induction xs generalizing a with
+  | nil => simp
+  | cons x xs ih =>
+    simp only [List.foldl_cons, maxStep_eq_max]
+    have h := ih (max a x)
+    refine ⟨le_trans (le_max_left a x) h.1, ?_⟩
+    intro v hv
+    rcases List.mem_cons.mp hv with e | e
+    · rw [e]; exact le_trans (le_max_right a x) h.1
+    · exact h.2 v e
+
+theorem foldl_maxStep_mem (xs : List α) (a : α) :
+    xs.foldl maxStep a = a ∨ xs.foldl maxStep a ∈ xs := by
+  induction xs generalizing a with
+  | nil => simp
+  | cons x xs ih =>
+    simp only [List.foldl_cons, maxStep_eq_max]
+    rcases ih (max a x) with h | h
+    · rcases max_choice a x with e | e
+      · left; rw [h, e]
+      · right; rw [h, e]; simp
+    · right; exact List.mem_cons_of_mem _ h
+
+/-- `array.h.max()` is an upper bound of the array's `h` and one of them -/
+theorem npMax_spec (h : List α) (m : α) (hm : npMax h = some m) :
+    (∀ v ∈ h, v ≤ m) ∧ m ∈ h := by
+  cases h with
+  | nil => simp [npMax] at hm
+  | cons x xs =>
+    simp only [npMax, Option.some.injEq] at hm
+    subst hm
+    have h1 := foldl_maxStep_ge xs x
+    refine ⟨?_, ?_⟩
+    · intro v hv
+      rcases List.mem_cons.mp hv with e | e
+      · rw [e]; exact h1.1
+      · exact h1.2 v e
+    · rcases foldl_maxStep_mem xs x with e | e
+      · rw [e]; simp
+      · exact List.mem_cons_of_mem _ e
+
+theorem maxHLoop_spec (hs : List (List α)) (h0 H : α) (hH : maxHLoop hs h0 = some H) :
+    h0 ≤ H ∧ (∀ h ∈ hs, ∀ v ∈ h, v ≤ H) ∧ (H = h0 ∨ ∃ h ∈ hs, H ∈ h) := by
+  induction hs generalizing h0 with
+  | nil =>
+    simp only [maxHLoop, Option.some.injEq] at hH
+    subst hH
+    simp
+  | cons h rest ih =>
+    simp only [maxHLoop] at hH
+    cases hm : npMax h with
+    | none => rw [hm] at hH; simp at hH
+    | some m =>
+      rw [hm] at hH
+      simp only [pyMax_eq_max] at hH
+      have hsp := npMax_spec h m hm
+      obtain ⟨i1, i2, i3⟩ := ih (max m h0) hH
+      refine ⟨le_trans (le_max_right m h0) i1, ?_, ?_⟩
+      · intro h' hh' v hv
+        rcases List.mem_cons.mp hh' with e | e
+        · subst e
+          exact le_trans (hsp.1 v hv) (le_trans (le_max_left m h0) i1)
+        · exact i2 h' e v hv
+      · rcases i3 with e | ⟨h', hh', hv⟩
+        · rcases max_choice m h0 with c | c
+          · right; exact ⟨h, by simp, by rw [e, c]; exact hsp.2⟩
+          · left; rw [e, c]
+        · right; exact ⟨h', List.mem_cons_of_mem _ hh', hv⟩
+
+end TargetH
 
 end PysphVerif.Interp
